@@ -56,8 +56,32 @@ func TestC20Cluster(t *testing.T) {
 			}
 			sum.Evaluations++
 		}
-		// let the expiring keys go and the workers finish
-		time.Sleep(600 * time.Millisecond)
+		// a wave of keys that die by expiry only: a few hundred keys with a time-to-live of 100 ms, never touched again.  What
+		// they occupied - on the primary owners and on the backup owners - has to be given back as well.
+		for i := 0; i < 1200; i++ {
+			p.Put(ctx, "c20", fmt.Sprintf("wave-%d", i), fmt.Sprintf("%0*d", 20+rng.Intn(maxv), i), PutOpts{Mode: "PX", D: 100 * time.Millisecond})
+			sum.Evaluations++
+		}
+		// let the expiring keys go and the workers finish: until the primary owners hold no expired entry any more (the eviction
+		// workers sample a few keys of one fragment per pass), then time for compaction and for the janitor
+		for deadline := time.Now().Add(20 * time.Second); time.Now().Before(deadline); time.Sleep(100 * time.Millisecond) {
+			expired := 0
+			nowMs := time.Now().UnixMilli()
+			for _, m := range c.Live() {
+				for part := uint64(0); part < 7; part++ {
+					for _, e := range m.V.DMap.VerifEntries("c20", part, partitions.PRIMARY) {
+						if e.TTL != 0 && e.TTL <= nowMs {
+							expired++
+						}
+					}
+				}
+			}
+			if expired == 0 {
+				break
+			}
+		}
+		time.Sleep(800 * time.Millisecond)
+		now := time.Now().UnixMilli()
 		nfrag := 0
 		for _, m := range c.Live() {
 			for part := uint64(0); part < 7; part++ {
@@ -71,7 +95,14 @@ func TestC20Cluster(t *testing.T) {
 					if kind == partitions.BACKUP {
 						k = "b"
 					}
-					w.Emit(trace.Ev{"t": "frag", "m": m.Index, "part": int(part), "kind": k, "allocated": st.Allocated, "inuse": st.Inuse,
+					// the live data: entries that have not expired (an expired entry that is still stored is not live data)
+					alive := 0
+					for _, e := range m.V.DMap.VerifEntries("c20", part, kind) {
+						if e.TTL == 0 || e.TTL > now {
+							alive += 29 + len(e.Key) + len(e.Value)
+						}
+					}
+					w.Emit(trace.Ev{"t": "frag", "m": m.Index, "part": int(part), "kind": k, "allocated": st.Allocated, "inuse": st.Inuse, "alive": alive,
 						"garbage": st.Garbage, "tables": st.NumTables, "len": st.Length, "maxe": maxv + 60})
 				}
 			}
